@@ -8,13 +8,18 @@
     the boolean side condition [rfmt_ok].
     NOTE on the truncating variant: for significand * 2^(exp-bias) >= 2^emax the code returns the
     +infinity fields, not the largest finite float ([round_down_correct] states exactly this); it
-    is recorded in KNOWN_FINDINGS (F3) - no caller can observe it. *)
+    is recorded in KNOWN_FINDINGS (F3) - no caller can observe it.
+    SOURCE TIE (tools/rs2coq): the functions named below are ALSO regenerated from the Rust source on every
+    run by a syn-based translator (coq/gen/Src.v) and proved EQUAL to the hand-written model functions the
+    theorems above are about ([rs_*_eq], proofs/SrcEquiv*.v) - for all inputs and both build modes; a change to
+    that Rust code changes the generated file and breaks these equalities.
+    Here: round, round_nearest_tie_even, round_down (rounding.rs); lower_n_mask, lower_n_halfway, nth_bit (mask.rs). *)
 
 From Coq Require Import ZArith QArith List Bool Reals.
 From Coq Require Import Floats.SpecFloat.
 From Flocq Require Import Core.Core.
 From ML Require Import base.RustSem model.Fmt model.Mask model.Num model.Rounding model.FloatOps spec.Round spec.RneZ spec.RneBridge
-  gen.Consts proofs.RoundingFactsZ proofs.RoundingFacts proofs.RoundingFactsRne proofs.Glue.
+  gen.Consts proofs.RoundingFactsZ proofs.RoundingFacts proofs.RoundingFactsRne proofs.Glue gen.Src proofs.SrcEquiv.
 
 Open Scope Z_scope.
 
@@ -233,6 +238,37 @@ Theorem C18_round_nearest_rne_bits :
            Ok r /\ extended_to_float f b r = Ok w /\ rne_bits f n d w.
 Proof. exact round_nearest_rne_bits. Qed.
 
+Theorem C18_rs_round_eq :
+  forall (f : format) (b : build) (fp : extfloat) (cb : extfloat -> Z -> outcome extfloat),
+         fmt_ok f -> rs_round f b fp cb = round f b fp cb.
+Proof. exact rs_round_eq. Qed.
+
+Theorem C18_rs_round_eq_std :
+  forall (f : format) (b : build) (fp : extfloat) (cb : extfloat -> Z -> outcome extfloat),
+         f = F32 \/ f = F64 -> rs_round f b fp cb = round f b fp cb.
+Proof. exact rs_round_eq_std. Qed.
+
+Theorem C18_rs_round_nearest_tie_even_eq :
+  forall (b : build) (fp : extfloat) (shift : Z) (cb : bool -> bool -> bool -> bool),
+         rs_round_nearest_tie_even b fp shift cb = round_nearest_tie_even b fp shift cb.
+Proof. exact rs_round_nearest_tie_even_eq. Qed.
+
+Theorem C18_rs_round_down_eq :
+  forall (b : build) (fp : extfloat) (shift : Z), rs_round_down b fp shift = round_down b fp shift.
+Proof. exact rs_round_down_eq. Qed.
+
+Theorem C18_rs_lower_n_mask_eq :
+  forall (b : build) (n : Z), rs_lower_n_mask b n = lower_n_mask b n.
+Proof. exact rs_lower_n_mask_eq. Qed.
+
+Theorem C18_rs_lower_n_halfway_eq :
+  forall (b : build) (n : Z), rs_lower_n_halfway b n = lower_n_halfway b n.
+Proof. exact rs_lower_n_halfway_eq. Qed.
+
+Theorem C18_rs_nth_bit_eq :
+  forall (b : build) (n : Z), rs_nth_bit b n = nth_bit b n.
+Proof. exact rs_nth_bit_eq. Qed.
+
 
 Print Assumptions C18_rfmt_ok_F32.
 Print Assumptions C18_rfmt_ok_F64.
@@ -254,3 +290,10 @@ Print Assumptions C18_lower_n_mask_ok.
 Print Assumptions C18_lower_n_halfway_ok.
 Print Assumptions C18_mask_helpers_release_outside.
 Print Assumptions C18_round_nearest_rne_bits.
+Print Assumptions C18_rs_round_eq.
+Print Assumptions C18_rs_round_eq_std.
+Print Assumptions C18_rs_round_nearest_tie_even_eq.
+Print Assumptions C18_rs_round_down_eq.
+Print Assumptions C18_rs_lower_n_mask_eq.
+Print Assumptions C18_rs_lower_n_halfway_eq.
+Print Assumptions C18_rs_nth_bit_eq.
